@@ -249,3 +249,20 @@ def zq_bool_result(x: fp.Real, y: fp.Real) -> bool:
             b = a * y + x
     return (a < b or a == y) and not (b != b)
 ''', ['real', 'real'], ['bool'], ctx='fp.FP32', argfmt='fp.FP32')
+
+# reported by a seeding agent on the unmodified tree: a callee specialised under an integer context keeps the caller's
+# hardware rounding mode for its own `with fp.FP64` block
+prog('call_from_integer_block_under_mode', '''
+@fp.fpy
+def zq_helper_own_ctx(x: fp.Real, y: fp.Real) -> fp.Real:
+    with fp.FP64:
+        return x * y + x
+
+@fp.fpy
+def zq_call_from_integer_block_under_mode(x: fp.Real, y: fp.Real) -> tuple[fp.Real, fp.Real]:
+    with D_RTP:
+        a = x * y + x
+        with fp.SINT32:
+            b = zq_helper_own_ctx(x, y)
+        return a, b
+''', ['real', 'real'], ['modes', 'call', 'integer'])
